@@ -92,4 +92,13 @@ def decodeLatt (p : List Rat) : Int :=
 /-- `Shelxfile.symmcards` after the LATT line with numerical parameters `p` and the `SYMM` lines `S` -/
 def expandLine (p : List Rat) (S : List Op) : Option (List Op) := expand (decodeLatt p) S
 
+/-! ### what the kernel evaluates on the model side for each tabulated setting (with the REGENERATED centring table;
+    the `decide +kernel` runs are in ShelxProps/Lemmas/C11Mod*.lean, one piece of the table per file) -/
+
+/-- the expansion exists, has the number of operators International Tables A give for the group, and no class twice -/
+def modelOK (e : Setting) : Bool :=
+  match expand e.N e.S with
+  | none => false
+  | some L => L.length == e.order && nodupB L
+
 end Shelx.C11
